@@ -80,6 +80,10 @@ type c03Flow struct {
 	Tainted       bool // a local socket matches: pass-through or routed, both accepted
 	Dec           c03Decision
 	Last          uint64
+	// the SYN of this (untracked: state table full) connection was forwarded carrying
+	// the rule's non-zero mark: forwarded traffic of that connection carries it too
+	Half     bool
+	HalfMark uint32
 	// bookkeeping for the non-triviality rule
 	FwdPackets   int
 	FirstByRule  bool
@@ -126,6 +130,7 @@ type c03Env struct {
 	now          uint64
 	alive        map[uint32]bool
 	mapFull      bool
+	forceTCP     uint8 // non-zero: the next generated TCP frames carry exactly these flags, well-formed
 	connMax      uint32
 	domains      map[netip.Addr]string
 	bitmapKeys   map[netip.Addr][]byte
@@ -581,6 +586,7 @@ type c03Expect struct {
 	Shot      bool
 	Redirect  bool
 	AltShot   bool // SHOT is accepted as well (statement silent: state table full)
+	NoteHalf  bool // if this SYN is let through (not SHOT), remember its mark (c03Flow.Half)
 	Dec       c03Decision
 	Why       string
 }
@@ -692,6 +698,11 @@ func (e *c03Env) forward(f *c03Flow, flags uint8) c03Expect {
 		newConn := flags&ksTCPSyn != 0 && flags&ksTCPAck == 0
 		if !newConn {
 			if !f.Tracked {
+				if f.Half {
+					e.class("segment_after_marked_syn_of_untrackable_flow")
+					return c03Expect{Pass: true, CheckMark: true, Mark: f.HalfMark, AltShot: true,
+						Why: "segment of a direct connection whose SYN was forwarded with the rule's mark although the state table was full: a mark given on the rule is set on forwarded LAN traffic"}
+				}
 				return c03Expect{Any: true, Why: "TCP segment of an untracked flow (statement silent)"}
 			}
 			f.Last = e.now
@@ -712,10 +723,12 @@ func (e *c03Env) forward(f *c03Flow, flags uint8) c03Expect {
 			return e.verdictFor(f, f.Dec, "sticky decision of the first packet")
 		}
 		dec := e.newDecision(f)
+		f.Half = false
 		if e.mapFull {
 			f.Tracked, f.HasDecision, f.Closing, f.WanOriginated = false, false, false, false
 			x := e.verdictFor(f, dec, "new connection, state table full")
 			x.AltShot = true
+			x.NoteHalf = x.Pass && x.CheckMark && x.Mark != 0
 			e.class("map_full_new_flow")
 			return x
 		}
@@ -855,6 +868,9 @@ func (e *c03Env) checkForward(f *c03Flow, desc string, in ksRunIn, out ksRunOut,
 	}
 	if x.AltShot && got == "SHOT" {
 		return
+	}
+	if x.NoteHalf {
+		f.Half, f.HalfMark = true, x.Mark
 	}
 	switch {
 	case x.Pass:
